@@ -364,21 +364,67 @@ deriving Repr, DecidableEq
 def targetQuery (t : Bytes) : Option Bytes :=
   if t.contains qmark then some ((t.dropWhile (· ≠ qmark)).drop 1) else none
 
+/-- struct burl_parts_t as mod_rewrite / mod_redirect fill it in for a request: `authority` =
+    r->uri.authority (the lower-cased Host), replaced by r->server_name (`serverName`) when blank;
+    path = r->target, query = r->uri.query -/
+def requestUrl (scheme authority serverName : Bytes) (port : Nat) (target : Bytes) : UrlParts :=
+  { scheme := some scheme, authority := some (if authority.isEmpty then serverName else authority),
+    port := port, path := target, query := targetQuery target }
+
 /-- http_response_handler()'s COMEBACK loop around mod_rewrite_uri_handler():
     `matcher target` = match results of all rule patterns on `target`. -/
 def rwRun (matcher : Bytes → List MatchRes) (templates : List Bytes) (repeatIdx : Nat)
-    (cond : Option Caps) (opts : Opts) (scheme authority : Option Bytes) (port : Nat) :
+    (cond : Option Caps) (opts : Opts) (scheme authority serverName : Bytes) (port : Nat) :
     Nat → Bytes → Option RwState → Nat → RwFinal
   | 0, _, _, _ => .outOfFuel
   | fuel + 1, target, h, n =>
-    let url : UrlParts := { scheme := scheme, authority := authority, port := port,
-                            path := target, query := targetQuery target }
+    let url : UrlParts := requestUrl scheme authority serverName port target
     match rwCall repeatIdx cond url (templates.zip (matcher target)) h with
     | (.goOn, _) => .served target n
     | (.comeback t', h') =>
       match parseTarget opts false t' with
       | .error e => .status e (n + 1)
-      | .ok tg => rwRun matcher templates repeatIdx cond opts scheme authority port fuel tg.target h' (n + 1)
+      | .ok tg => rwRun matcher templates repeatIdx cond opts scheme authority serverName port fuel tg.target h' (n + 1)
+    | (r, _) => .failed r n
+
+/-- mod_rewrite_uri_handler(): url.rewrite-once / url.rewrite-repeat; returns before touching the
+    per-request state when the list is empty -/
+def rwUri (repeatIdx : Nat) (cond : Option Caps) (url : UrlParts) (rules : List (Bytes × MatchRes))
+    (h : Option RwState) : RwRes × Option RwState :=
+  if rules.isEmpty then (.goOn, h) else rwCall repeatIdx cond url rules h
+
+/-- what the two hooks of mod_rewrite meet on one pass of a request through http_response_prepare():
+    the configuration patched for the request as it is now (after a rewrite other conditions may
+    hold: other rule lists, other %N captures), the PCRE2 verdicts on the current target, and the
+    filesystem object the physical path names -/
+structure RwPass where
+  uriRules : List (Bytes × MatchRes)      -- url.rewrite-once ++ url.rewrite-repeat
+  uriIdx : Nat
+  nfRules : List (Bytes × MatchRes)       -- url.rewrite-if-not-file ++ url.rewrite-repeat-if-not-file
+  nfIdx : Nat
+  cond : Option Caps
+  handlerSet : Bool
+  kind : FsKind
+
+/-- the whole rewrite stage: both hooks share r->plugin_ctx (counter + finished flag); every
+    HANDLER_COMEBACK re-parses the target and starts a new pass -/
+def rwRunG (pass : Bytes → RwPass) (opts : Opts) (scheme authority serverName : Bytes) (port : Nat) :
+    Nat → Bytes → Option RwState → Nat → RwFinal
+  | 0, _, _, _ => .outOfFuel
+  | fuel + 1, target, h, n =>
+    let p := pass target
+    let url := requestUrl scheme authority serverName port target
+    let again (t' : Bytes) (h' : Option RwState) : RwFinal :=
+      match parseTarget opts false t' with
+      | .error e => .status e (n + 1)
+      | .ok tg => rwRunG pass opts scheme authority serverName port fuel tg.target h' (n + 1)
+    match rwUri p.uriIdx p.cond url p.uriRules h with
+    | (.comeback t', h') => again t' h'
+    | (.goOn, h1) =>
+      (match rwPhysical p.handlerSet p.kind p.nfIdx p.cond url p.nfRules h1 with
+       | (.comeback t', h') => again t' h'
+       | (.goOn, _) => .served target n
+       | (r, _) => .failed r n)
     | (r, _) => .failed r n
 
 /-! ## mod_alias -/
